@@ -708,9 +708,37 @@ def grid_semantics(check: Check) -> None:
     def note(kind: str, text: str) -> None:
         bad.setdefault(kind, text)
 
+    def new_exporter() -> MObj:
+        """An exporter as its constructor leaves it (each statement of __init__ interpreted with the default arguments; what the interpreter cannot
+        follow is skipped). The same exporter then writes every grid of one scope: what it keeps from one export must not shape the next."""
+        from ..absexec import Closure
+
+        me = MObj("FldExporter", {})
+        init = fn.cls.lookup("__init__")
+        if init is None:
+            return me
+        a = init.node.args
+        ex0 = AbsExec(init.qualname, {})
+        env0: dict[str, Any] = {a.args[0].arg: me}
+        names = [x.arg for x in a.args[1:]]
+        for nm, d in zip(names[len(names) - len(a.defaults):], a.defaults):
+            try:
+                env0[nm] = ex0.ev(d, {})
+            except (Unknown, Internal, Raised):
+                env0[nm] = Opaque(nm)
+        for nm in names:
+            env0.setdefault(nm, Opaque(nm))
+        for st in init.node.body:
+            try:
+                ex0.stmt(st, env0)
+            except (Unknown, Internal, Raised, _Return):
+                pass
+        return me
+
     try:
         for n in range(1, max_n + 1):
             for scope in (EACH, ALL):
+                exporter = new_exporter()
                 for v in (range(1, 5) if scope == EACH else sizes[n]):
                     subsets = [tuple(c) for r_ in range(n + 1) for c in itertools.combinations(range(n), r_)] if (scope == EACH and v <= 3) or v in (1, 4, 9) else [tuple(range(n))]
                     for act in subsets + [None]:
@@ -733,7 +761,7 @@ def grid_semantics(check: Check) -> None:
                                      "method:take": lambda ex_, e, recv, args, kw: args[0], "method:array": lambda ex_, e, recv, args, kw: args[0],
                                      "method:asarray": lambda ex_, e, recv, args, kw: args[0]}
                             ex = AbsExec(fn.qualname, hooks, helpers={**{k: v for k, v in fn.cls.methods.items() if k.startswith("_") and not k.startswith("__")}, "increment": inc})
-                            env: dict[str, Any] = {_self: MObj("FldExporter", {}), p_engine: engine, p_writer: Opaque("writer"), p_values: v, p_scope: scope,
+                            env: dict[str, Any] = {_self: exporter, p_engine: engine, p_writer: Opaque("writer"), p_values: v, p_scope: scope,
                                                    p_active: (None if act is None else frozenset(vars_[i] for i in act)),
                                                    "FldExporter": ns, "Op": Opaque("Op"), "Operation": Opaque("Op"), "np": Opaque("np")}
                             what = (f"{n} input(s), {'each variable' if scope == EACH else 'all variables'} = {v}, active = "
